@@ -8,6 +8,9 @@ Replay: the function is synthesised with reflect.MakeFunc and records every invo
 the received (converted) arguments, the injected context, the result as a formula number, the error naming the function."""
 
 def run(ctx):
+    # a call inside a formula: callee first, arguments left to right, one invocation or none (host-call log observed)
+    from checks.evalcheck import run_family
+    run_family(ctx, "c11", 500)
     r = ctx.tlc("call", "mc/MC_Call.tla", "mc/MC_Call.cfg", min_states=800000, timeout=3000, heap="12g")
     ctx.replay("call-replay", "call", r["dump"], min_cases=800000)
     return ctx.finish(
